@@ -9,3 +9,4 @@ import DateutilVerif.Properties.C17
 #print axioms C17.yearly_rule_occ
 #print axioms C17.onsets_of_yearly_rule
 #print axioms C17.ical_eq_tzstr_partial
+#print axioms C17.parse_offset_bad_length
